@@ -71,6 +71,18 @@ def generate(rng, tier):
         yield {"fa": spec}
 
 
+
+def exhaustive(tier):
+    """every automaton with 1 or 2 states over one symbol (with epsilon moves), and over two symbols without"""
+    if tier != "thorough":
+        return
+    for n in (1, 2):
+        for spec in F.enumerate_fa(n, 1, "E"):
+            yield {"fa": spec}
+    for spec in F.enumerate_fa(2, 2, "N"):
+        yield {"fa": spec}
+
+
 def run_case(case, drv):
     res = CaseResult()
     spec = case["fa"]
